@@ -19,7 +19,7 @@ TRUST = ["user RcObject::pop_edges / Drop honour the RcObject safety contract",
 prop("C01", "other",
      ["CW-SITES", "OWN-BALANCE", "OWN-PRIMITIVES", "CW-TOKEN", "CW-SPLIT-INC-PROTECTED", "CW-ZERO-DEFERS",
       "CW-DEC-NONZERO", "CW-ATTEMPT-RECHECK", "CW-DEFERRED-ONLY"],
-     [COMPOSITION], assumptions=TRUST)
+     [COMPOSITION], witnesses=["TY-REF-BORROW"], assumptions=TRUST)
 prop("C03", "other",
      ["CW-SITES", "OWN-BALANCE", "OWN-PRIMITIVES", "CW-WEAK-PROTOCOL", "CW-DESTRUCT-ORDER", "CW-SPLIT-INC-PROTECTED",
       "CW-DEFERRED-ONLY", "TY-SIG"],
